@@ -1,0 +1,165 @@
+//! Verification hooks (`--cfg gluon_verif`). Not compiled in normal builds.
+//!
+//! * collection stride: force a collection on every k-th `Gc::check_collect`
+//! * quarantine: freed objects are poisoned and leaked instead of returned to the allocator, and
+//!   their addresses remembered, so that reaching one is detected instead of undefined
+//! * ownership: every object remembers the `Gc` that allocated it
+//! * walk: enumerate the objects reachable from one thread's roots through `Trace`
+use std::collections::{HashMap, HashSet};
+use std::sync::atomic::{AtomicBool, AtomicUsize, Ordering};
+use std::sync::Mutex;
+
+static STRIDE: AtomicUsize = AtomicUsize::new(0);
+static COUNTER: AtomicUsize = AtomicUsize::new(0);
+static COLLECTIONS: AtomicUsize = AtomicUsize::new(0);
+static QUARANTINE: AtomicBool = AtomicBool::new(false);
+
+/// An object reached by a walk: header address, owning `Gc`, generation, freed?, is a `Thread`?
+#[derive(Clone, Debug)]
+pub struct Node {
+    pub addr: usize,
+    pub owner: usize,
+    pub generation: i32,
+    pub freed: bool,
+    pub is_thread: bool,
+}
+
+#[derive(Default)]
+struct State {
+    freed: HashSet<usize>,
+    owner: HashMap<usize, usize>,
+    threads: HashSet<usize>,
+    events: Vec<String>,
+    walk: Option<Walk>,
+}
+
+struct Walk {
+    root: usize,
+    visited: HashSet<usize>,
+    nodes: Vec<Node>,
+}
+
+static STATE: Mutex<Option<State>> = Mutex::new(None);
+
+fn with<R>(f: impl FnOnce(&mut State) -> R) -> R {
+    let mut guard = STATE.lock().unwrap_or_else(|e| e.into_inner());
+    f(guard.get_or_insert_with(State::default))
+}
+
+/// Collect on every `k`-th `check_collect` (0 turns the hook off).
+pub fn set_stride(k: usize) {
+    STRIDE.store(k, Ordering::SeqCst);
+    COUNTER.store(0, Ordering::SeqCst);
+}
+
+pub fn set_quarantine(on: bool) {
+    QUARANTINE.store(on, Ordering::SeqCst);
+}
+
+/// Number of collections forced by the stride hook so far.
+pub fn forced_collections() -> usize {
+    COLLECTIONS.load(Ordering::SeqCst)
+}
+
+/// Events recorded since the last call (dangling pointers seen by `mark`).
+pub fn take_events() -> Vec<String> {
+    with(|s| std::mem::take(&mut s.events))
+}
+
+pub fn is_freed(header_addr: usize) -> bool {
+    with(|s| s.freed.contains(&header_addr))
+}
+
+pub fn owner_of(header_addr: usize) -> Option<usize> {
+    with(|s| s.owner.get(&header_addr).cloned())
+}
+
+pub(crate) fn stride_tick() -> bool {
+    let k = STRIDE.load(Ordering::Relaxed);
+    if k == 0 {
+        return false;
+    }
+    let n = COUNTER.fetch_add(1, Ordering::Relaxed) + 1;
+    if n % k == 0 {
+        COLLECTIONS.fetch_add(1, Ordering::Relaxed);
+        true
+    } else {
+        false
+    }
+}
+
+pub(crate) fn on_alloc(header_addr: usize, gc_addr: usize, is_thread: bool) {
+    with(|s| {
+        s.owner.insert(header_addr, gc_addr);
+        s.freed.remove(&header_addr);
+        if is_thread {
+            s.threads.insert(header_addr);
+        } else {
+            s.threads.remove(&header_addr);
+        }
+    })
+}
+
+/// Returns true when the block must be leaked (quarantine on).
+pub(crate) fn on_free(header_addr: usize) -> bool {
+    let q = QUARANTINE.load(Ordering::Relaxed);
+    with(|s| {
+        if q {
+            s.freed.insert(header_addr);
+        } else {
+            s.owner.remove(&header_addr);
+            s.threads.remove(&header_addr);
+        }
+    });
+    q
+}
+
+/// Called first thing in `Gc::mark`. `Some(b)` overrides the result of `mark`.
+pub(crate) fn on_mark(header_addr: usize, generation: i32) -> Option<bool> {
+    with(|s| {
+        let freed = s.freed.contains(&header_addr);
+        let owner = s.owner.get(&header_addr).cloned().unwrap_or(0);
+        let is_thread = s.threads.contains(&header_addr);
+        match s.walk {
+            Some(ref mut w) => {
+                if !w.visited.insert(header_addr) {
+                    return Some(true);
+                }
+                w.nodes.push(Node {
+                    addr: header_addr,
+                    owner,
+                    generation,
+                    freed,
+                    is_thread,
+                });
+                // never look inside a freed block, nor inside another thread
+                Some(freed || (is_thread && header_addr != w.root))
+            }
+            None => {
+                if freed {
+                    s.events.push(format!(
+                        "dangling: a collection reached the freed object {:#x} (generation {})",
+                        header_addr, generation
+                    ));
+                    Some(true)
+                } else {
+                    None
+                }
+            }
+        }
+    })
+}
+
+pub(crate) fn begin_walk(root: usize) {
+    with(|s| {
+        s.walk = Some(Walk {
+            root,
+            visited: HashSet::new(),
+            nodes: Vec::new(),
+        })
+    })
+}
+
+pub(crate) fn end_walk() -> Vec<Node> {
+    with(|s| s.walk.take().map(|w| w.nodes).unwrap_or_default())
+}
